@@ -637,7 +637,10 @@ Proof.
   assert (Hrw : v_access v = RW).
   { inversion Hok as [|? ? (A & _) _]. exact A. }
   unfold Lemmas_C07e.read_response. rewrite Hvs.
-  rewrite !app_length. cbn [length].
+  assert (Hlen : length (c_name c ++ [ch_EQ] ++ join_comma txts)
+                 = length (c_name c) + S (length (join_comma txts)))
+    by (rewrite !app_length; reflexivity).
+  rewrite Hlen. clear Hlen.
   set (w1 := upd_st (start_processing_format_read_args D ATCMD) w).
   assert (Hst1 : st w1 = start_processing_format_read_args D ATCMD (st w)) by reflexivity.
   assert (Hw1 : forall s', set_st s' w1 = set_st s' w) by reflexivity.
@@ -661,8 +664,8 @@ Proof.
     rewrite <- Hst1 in HF.
     exists (st w1). split.
     + rewrite fra_run_stop; [reflexivity|]. destruct HF as (_ & F & _). exact F.
-    + replace (length (c_name c) + S (length (join_comma txts)) <? length (cbuf (st w)))
-        with false by (symmetry; apply Nat.ltb_ge; lia).
+    + destruct (Nat.ltb_spec (length (c_name c) + S (length (join_comma txts)))
+                             (length (cbuf (st w)))) as [Hfit|Hno]; [lia|].
       exact HF.
 Qed.
 
@@ -698,3 +701,356 @@ Proof.
   - destruct HD as (F1 & F2 & F3 & F4 & F5).
     repeat split; assumption.
 Qed.
+
+(* ================= 4. WRITE: the parsing loop ================= *)
+
+(* ---- list helpers ---- *)
+Lemma nth_error_upd_same : forall (A : Type) (l : list A) i x y,
+  nth_error l i = Some y -> nth_error (upd l i x) i = Some x.
+Proof.
+  induction l as [|a l IH]; intros [|i] x y H; cbn [nth_error upd] in *; try discriminate.
+  - reflexivity.
+  - exact (IH i x y H).
+Qed.
+
+Lemma nth_error_upd_other : forall (A : Type) (l : list A) i j x,
+  i <> j -> nth_error (upd l i x) j = nth_error l j.
+Proof.
+  induction l as [|a l IH]; intros [|i] [|j] x H; cbn [nth_error upd]; try reflexivity.
+  - congruence.
+  - apply IH. congruence.
+Qed.
+
+Lemma map_length_upd : forall (l : list (list N)) i x y,
+  nth_error l i = Some y -> length x = length y ->
+  map (@length N) (upd l i x) = map (@length N) l.
+Proof.
+  induction l as [|a l IH]; intros [|i] x y H Hl; cbn [nth_error upd map] in *; try discriminate.
+  - injection H as ->. rewrite Hl. reflexivity.
+  - f_equal. exact (IH i x y H Hl).
+Qed.
+
+Lemma same_shape_nth : forall m m' i d, same_shape m m' -> nth_error m i = Some d ->
+  exists d', nth_error m' i = Some d' /\ length d' = length d.
+Proof.
+  intros m m' i d Hs Hn. unfold same_shape in Hs.
+  assert (E : nth_error (map (@length N) m') i = Some (length d)).
+  { rewrite <- Hs, nth_error_map, Hn. reflexivity. }
+  rewrite nth_error_map in E. destruct (nth_error m' i) as [d'|]; [|discriminate].
+  injection E as E. exists d'. split; [reflexivity|exact E].
+Qed.
+
+Lemma skipn_app_len : forall (A : Type) (a b : list A), skipn (length a) (a ++ b) = b.
+Proof. induction a as [|x a IH]; intros b; cbn [length app skipn]; [reflexivity|apply IH]. Qed.
+
+Lemma firstn_app_nul : forall (a cb : list N),
+  firstn (S (length a)) cb = a ++ [0%N] -> cb = a ++ 0%N :: skipn (S (length a)) cb.
+Proof.
+  intros a cb H. rewrite <- (firstn_skipn (S (length a)) cb) at 1.
+  rewrite H, <- app_assoc. reflexivity.
+Qed.
+
+Lemma same_value_length : forall v d1 d2, same_value v d1 d2 -> length d1 = length d2.
+Proof.
+  intros v d1 d2 H. unfold same_value in H.
+  destruct (v_type v); try (subst; reflexivity). destruct H as [_ H]. exact H.
+Qed.
+
+Lemma text_of_OK : forall n, 2 <= n -> text_of (strncpy_buf n txt_OK) = txt_OK.
+Proof.
+  intros n H. destruct n as [|[|[|n]]]; try lia.
+  - reflexivity.
+  - apply text_of_strncpy; [apply not_in_OK|]. cbn [length txt_OK]. lia.
+Qed.
+
+Lemma print_dec_z_nonempty : forall z, print_dec_z z <> [].
+Proof.
+  intros [|p|p]; unfold print_dec_z; try discriminate;
+    destruct (C07_print_dec_inverse (Z.to_N 0)) as (_ & _ & A);
+    destruct (C07_print_dec_inverse (Z.to_N (Z.pos p))) as (_ & _ & B); assumption.
+Qed.
+
+Lemma var_text_nonempty : forall v data txt,
+  var_text v data = Some txt -> length data = v_size v -> (v_type v = VBufHex -> 0 < v_size v) ->
+  txt <> [].
+Proof.
+  intros v data txt Ht Hl Hhex. unfold var_text, fmt_num_text in Ht.
+  destruct (v_type v) eqn:Ety.
+  - unfold fmt_int_text in Ht. destruct (supported_width (v_size v)); [|discriminate].
+    injection Ht as <-. apply print_dec_z_nonempty.
+  - unfold fmt_uint_text in Ht. destruct (supported_width (v_size v)); [|discriminate].
+    injection Ht as <-.
+    match goal with |- print_dec ?n <> [] => destruct (C07_print_dec_inverse n) as (_ & _ & A) end.
+    exact A.
+  - unfold fmt_hex_text in Ht. destruct (supported_width (v_size v)); [|discriminate].
+    injection Ht as <-. discriminate.
+  - injection Ht as <-. specialize (Hhex eq_refl). unfold fmt_bufhex_pieces.
+    destruct data as [|x data]; [cbn [length] in Hl; lia|].
+    destruct (v_size v) as [|n]; [lia|]. cbn [firstn map concat].
+    match goal with |- print_hex_pad ?w ?n ++ _ <> [] =>
+      destruct (print_hex_pad_spec w n) as (_ & _ & A) end.
+    intro E. apply app_eq_nil in E. destruct E as [E _]. exact (A E).
+  - injection Ht as <-. unfold fmt_bufstr_pieces. cbn [concat app]. discriminate.
+Qed.
+
+(* ---- one step of parse_write_args on the object state ---- *)
+Definition pwa_next (c : cmd) (comma : bool) (s : state) : state :=
+  let idx := S (k_index (k s)) in
+  let s := setk_index idx s in
+  if (idx <? length (c_vars c)) && comma then setk_var idx s
+  else if comma then ack_error s
+  else if c_need_all c && negb (idx =? length (c_vars c)) then ack_error s
+  else if negb (c_hwrite c) then ack_ok s
+  else setk_state CS_WRITE_LOOP s.
+
+Definition pwa_store (v : var) (d : list N) (ws n : nat) (s : state) : state :=
+  setk_write_size ws (set_mem (upd (mem s) (v_slot v) d) (setk_position (k_position (k s) + n) s)).
+
+Local Notation pwa_step := (pwa_step D ioS muS hS mu_lock mu_unlock h_call).
+Local Notation pwa_run := (pwa_run D ioS muS hS mu_lock mu_unlock h_call).
+Local Notation write_back := (write_back D ioS muS hS mu_lock mu_unlock h_call).
+
+Lemma pwa_step_eq : forall (w : world) c v data comma d ws n,
+  cmd_of D ATCMD (st w) = Some c -> nth_error (c_vars c) (k_var (k (st w))) = Some v ->
+  nth_error (mem (st w)) (v_slot v) = Some data -> v_hwrite v = false ->
+  decode_var v (skipn (k_position (k (st w))) (cbuf (st w))) data = (SOk comma, d, ws, n) ->
+  pwa_step w = set_st (pwa_next c comma (pwa_store v d ws n (st w))) w.
+Proof.
+  intros w c v data comma d ws n Hc Hn Hd Hw He.
+  unfold Lemmas_C07e.pwa_step, parse_write_args. cbv zeta.
+  unfold cmd_of in Hc |- *. destruct (g_cmd ATCMD (st w)) as [ci|] eqn:Eg; [|discriminate].
+  rewrite Hc, Hn, Hd, He, Hw. reflexivity.
+Qed.
+
+Lemma pwa_run_S : forall n (w : world),
+  pwa_run (S n) w
+  = if cstate_beq (k_state (k (st w))) CS_PARSE_WRITE_ARGS then pwa_run n (pwa_step w) else w.
+Proof. reflexivity. Qed.
+
+(* ---- the invariant ---- *)
+Definition vals_ok (m : list (list N)) (s : state) (vs : list var) : Prop :=
+  forall v d0, In v vs -> nth_error m (v_slot v) = Some d0 ->
+    exists d1, nth_error (mem s) (v_slot v) = Some d1 /\ same_value v d1 d0.
+Definition frame_ok (m0 : list (list N)) (s : state) (vs : list var) : Prop :=
+  forall sl, ~ In sl (map v_slot vs) -> nth_error (mem s) sl = nth_error m0 sl.
+
+Definition WInv (c : cmd) (m m0 : list (list N)) (cb : list N) (s : state) (pre : list var)
+           (p : nat) : Prop :=
+  fault s = false /\ k_state (k s) = CS_PARSE_WRITE_ARGS /\ cmd_of D ATCMD s = Some c /\
+  k_var (k s) = length pre /\ k_index (k s) = length pre /\ cbuf s = cb /\ k_position (k s) = p /\
+  same_shape m (mem s) /\ vals_ok m s pre /\ frame_ok m0 s pre.
+
+(* after decode + store, before the index bookkeeping *)
+Definition WMid (c : cmd) (m m0 : list (list N)) (cb : list N) (s : state) (pre : list var)
+           (v : var) (p : nat) : Prop :=
+  fault s = false /\ k_state (k s) = CS_PARSE_WRITE_ARGS /\ cmd_of D ATCMD s = Some c /\
+  k_index (k s) = length pre /\ cbuf s = cb /\ k_position (k s) = p /\
+  same_shape m (mem s) /\ vals_ok m s (pre ++ [v]) /\ frame_ok m0 s (pre ++ [v]).
+
+Definition WDone (c : cmd) (m m0 : list (list N)) (s : state) : Prop :=
+  fault s = false /\ k_state (k s) = CS_FLUSH_WAIT /\ k_wafter (k s) = CS_AFTER_RESET /\
+  text_of (cbuf s) = txt_OK /\ vals_ok m s (c_vars c) /\ frame_ok m0 s (c_vars c).
+
+Lemma wstep_decode : forall c m m0 cb s pre p v vs txt t tail done,
+  WInv c m m0 cb s pre p -> c_vars c = pre ++ v :: vs -> NoDup (map v_slot (c_vars c)) ->
+  rt_var_ok m v -> slot_text m v = Some txt -> is_term t = true ->
+  cb = done ++ txt ++ t :: tail -> p = length done ->
+  exists data' d ws,
+    nth_error (c_vars c) (k_var (k s)) = Some v /\
+    nth_error (mem s) (v_slot v) = Some data' /\
+    decode_var v (skipn (k_position (k s)) (cbuf s)) data'
+      = (SOk (t =? ch_COMMA)%N, d, ws, S (length txt)) /\
+    WMid c m m0 cb (pwa_store v d ws (S (length txt)) s) pre v (length (done ++ txt ++ [t])).
+Proof.
+  intros c m m0 cb s pre p v vs txt t tail done
+         (W1 & W2 & W3 & W4 & W5 & W6 & W7 & W8 & W9 & W10) Hc Hnd Hok Ht Hterm Hcb Hp.
+  destruct (var_facts m v txt Hok Ht) as (data & Hd & Hvt & Hdl & Hhex & Hb & Hs).
+  destruct Hok as (Hrw & _).
+  destruct (same_shape_nth m (mem s) (v_slot v) data W8 Hd) as (data' & Hd' & Hl').
+  destruct (C07_var_roundtrip v data data' txt t tail Hrw Hb Hdl ltac:(lia) Hs Hhex Hvt Hterm)
+    as (d & ws & Hdec & Hsame).
+  exists data', d, ws.
+  assert (Hslots : forall v', In v' pre -> v_slot v' <> v_slot v).
+  { intros v' Hin E. rewrite Hc, map_app in Hnd. cbn [map] in Hnd.
+    apply NoDup_remove_2 in Hnd. apply Hnd. apply in_or_app. left.
+    rewrite <- E. apply in_map. exact Hin. }
+  split; [rewrite W4, Hc; apply nth_mid|].
+  split; [exact Hd'|].
+  split.
+  { rewrite W6, W7, Hcb, Hp, skipn_app_len. exact Hdec. }
+  unfold WMid, vals_ok, frame_ok, pwa_store in *. cbn.
+  repeat split; try assumption.
+  - rewrite W7, Hp, !app_length. cbn [length]. lia.
+  - unfold same_shape in *. rewrite W8. symmetry.
+    apply (map_length_upd (mem s) (v_slot v) d data' Hd').
+    rewrite (same_value_length v d data Hsame). lia.
+  - intros v' d0 Hin Hn0. apply in_app_or in Hin. destruct Hin as [Hin|[<-|[]]].
+    + destruct (W9 v' d0 Hin Hn0) as (d1 & Hn1 & Hs1). exists d1. split; [|exact Hs1].
+      rewrite nth_error_upd_other; [exact Hn1|]. intro E. exact (Hslots v' Hin (eq_sym E)).
+    + exists d. split; [apply (nth_error_upd_same _ _ _ _ _ Hd')|].
+      rewrite Hd in Hn0. injection Hn0 as <-. exact Hsame.
+  - intros sl Hsl. rewrite map_app in Hsl. cbn [map] in Hsl.
+    rewrite nth_error_upd_other.
+    + apply W10. intro H. apply Hsl. apply in_or_app. left. exact H.
+    + intro E. apply Hsl. apply in_or_app. right. left. exact E.
+Qed.
+
+Lemma wmid_more : forall c m m0 cb s pre v p,
+  WMid c m m0 cb s pre v p -> S (length pre) < length (c_vars c) ->
+  WInv c m m0 cb (pwa_next c true s) (pre ++ [v]) p.
+Proof.
+  intros c m m0 cb s pre v p (W1 & W2 & W3 & W5 & W6 & W7 & W8 & W9 & W10) Hlt.
+  unfold pwa_next. cbv zeta. rewrite W5.
+  replace (S (length pre) <? length (c_vars c)) with true by (symmetry; apply Nat.ltb_lt; lia).
+  cbn [andb]. unfold WInv. rewrite app_length. cbn [length].
+  replace (length pre + 1) with (S (length pre)) by lia.
+  cbn. repeat split; assumption.
+Qed.
+
+Lemma wmid_last : forall c m m0 cb s pre v p,
+  WMid c m m0 cb s pre v p -> c_vars c = pre ++ [v] -> c_hwrite c = false -> 2 <= length cb ->
+  WDone c m m0 (pwa_next c false s).
+Proof.
+  intros c m m0 cb s pre v p (W1 & W2 & W3 & W5 & W6 & W7 & W8 & W9 & W10) Hc Hw H2.
+  unfold pwa_next. cbv zeta. rewrite W5, Hw, andb_false_r.
+  replace (S (length pre) =? length (c_vars c)) with true.
+  2:{ symmetry. apply Nat.eqb_eq. rewrite Hc, app_length. cbn [length]. lia. }
+  cbn [negb]. rewrite andb_false_r.
+  unfold WDone. rewrite Hc.
+  repeat split; try assumption.
+  cbn. unfold asz. cbn. rewrite W6. apply text_of_OK. exact H2.
+Qed.
+
+Lemma wloop : forall c m m0 cb, c_hwrite c = false -> NoDup (map v_slot (c_vars c)) ->
+  2 <= length cb ->
+  forall vs v pre (w : world) done txts tl,
+  c_vars c = pre ++ v :: vs -> Forall (rt_var_ok m) (v :: vs) ->
+  WInv c m m0 cb (st w) pre (length done) ->
+  all_some (map (slot_text m) (v :: vs)) = Some txts ->
+  cb = done ++ join_comma txts ++ 0%N :: tl ->
+  exists s', pwa_run (length (v :: vs)) w = set_st s' w /\ WDone c m m0 s'.
+Proof.
+  intros c m m0 cb Hw Hnd H2.
+  induction vs as [|v2 vs IH]; intros v pre w done txts tl Hc Hok HW Ha Hcb;
+    destruct (all_some_cons_st _ _ _ _ Ha) as (txt & txts' & -> & Hi & Ha');
+    inversion Hok as [|? ? Hokv Hokvs]; subst x l;
+    pose proof Hokv as (_ & _ & Hnw & _);
+    pose proof HW as (_ & Hst & Hcmd & _);
+    match goal with |- context [pwa_run (length (?a :: ?b)) _] =>
+      change (length (a :: b)) with (S (length b)) end;
+    rewrite pwa_run_S, Hst; cbn [cstate_beq].
+  - cbn [map all_some] in Ha'. injection Ha' as <-.
+    rewrite join_comma_one in Hcb. cbn [length Lemmas_C07e.pwa_run].
+    destruct (wstep_decode c m m0 cb (st w) pre (length done) v [] txt 0%N tl done
+                HW Hc Hnd Hokv Hi eq_refl Hcb eq_refl) as (data' & d & ws & Hn & Hd' & Hdec & HM).
+    rewrite (pwa_step_eq w c v data' _ d ws _ Hcmd Hn Hd' Hnw Hdec).
+    eexists. split; [reflexivity|].
+    change (0 =? ch_COMMA)%N with false.
+    exact (wmid_last _ _ _ _ _ _ _ _ HM Hc Hw H2).
+  - destruct (all_some_cons_st _ _ _ _ Ha') as (txt2 & txts2 & -> & Hi2 & Ha2).
+    rewrite join_comma_cons2 in Hcb.
+    destruct (wstep_decode c m m0 cb (st w) pre (length done) v (v2 :: vs) txt ch_COMMA
+                (join_comma (txt2 :: txts2) ++ 0%N :: tl) done
+                HW Hc Hnd Hokv Hi eq_refl) as (data' & d & ws & Hn & Hd' & Hdec & HM).
+    { rewrite Hcb, <- !app_assoc. reflexivity. }
+    { reflexivity. }
+    rewrite (pwa_step_eq w c v data' _ d ws _ Hcmd Hn Hd' Hnw Hdec).
+    change (ch_COMMA =? ch_COMMA)%N with true.
+    pose proof (wmid_more _ _ _ _ _ _ _ _ HM) as HW'.
+    specialize (HW' ltac:(rewrite Hc, app_length; cbn [length]; lia)).
+    specialize (IH v2 (pre ++ [v])
+                   (set_st (pwa_next c true (pwa_store v d ws (S (length txt)) (st w))) w)
+                   (done ++ txt ++ [ch_COMMA]) (txt2 :: txts2) tl).
+    destruct IH as (s' & E & HD).
+    + rewrite Hc, <- app_assoc. reflexivity.
+    + exact Hokvs.
+    + exact HW'.
+    + exact Ha'.
+    + rewrite Hcb, <- !app_assoc. reflexivity.
+    + exists s'. rewrite E, set_st_set_st. split; [reflexivity|exact HD].
+Qed.
+
+Theorem C07_write_back : forall (w : world) ci c m args,
+  rt_cmd_ok m c -> read_args_text m c = Some args -> same_shape m (mem (st w)) ->
+  k_state (k (st w)) = CS_PARSE_WRITE_ARGS ->
+  g_cmd ATCMD (st w) = Some ci -> cmd_at D ci = Some c ->
+  k_position (k (st w)) = 0 -> k_index (k (st w)) = 0 -> k_var (k (st w)) = 0 ->
+  firstn (S (length args)) (cbuf (st w)) = args ++ [0%N] -> fault (st w) = false ->
+  let w' := write_back c w in
+  fault (st w') = false /\ tr w' = tr w /\ hs w' = hs w /\
+  k_state (k (st w')) = CS_FLUSH_WAIT /\ k_wafter (k (st w')) = CS_AFTER_RESET /\
+  text_of (cbuf (st w')) = txt_OK /\
+  (forall v d0, In v (c_vars c) -> nth_error m (v_slot v) = Some d0 ->
+     exists d1, nth_error (mem (st w')) (v_slot v) = Some d1 /\ same_value v d1 d0) /\
+  (forall sl, ~ In sl (map v_slot (c_vars c)) ->
+     nth_error (mem (st w')) sl = nth_error (mem (st w)) sl).
+Proof.
+  intros w ci c m args (Hne & Hok & Hnd & _ & Hw & _) Ha Hsh Hst Hg Hc Hp Hi Hv Hbuf Hf w'.
+  subst w'. unfold cmd_at in Hc. unfold read_args_text in Ha.
+  change (fun v : var => match nth_error m (v_slot v) with
+                         | Some d => var_text v d | None => None end)
+    with (slot_text m) in Ha.
+  destruct (all_some (map (slot_text m) (c_vars c))) as [txts|] eqn:Hall; [|discriminate].
+  injection Ha as <-.
+  destruct (c_vars c) as [|v vs] eqn:Hvs; [congruence|].
+  apply firstn_app_nul in Hbuf.
+  set (tl := skipn (S (length (join_comma txts))) (cbuf (st w))) in Hbuf.
+  assert (H2 : 2 <= length (cbuf (st w))).
+  { destruct (all_some_cons_st _ _ _ _ Hall) as (txt & txts' & -> & Hi1 & _).
+    inversion Hok as [|? ? Hokv _]; subst.
+    destruct (var_facts m v txt Hokv Hi1) as (data & _ & Ht & Hdl & Hhex & _).
+    pose proof (var_text_nonempty v data txt Ht Hdl Hhex) as Hnz.
+    rewrite Hbuf. cbn [join_comma]. rewrite !app_length. cbn [length].
+    destruct txt; [congruence|]. cbn [length]. lia. }
+  assert (HW : WInv c m (mem (st w)) (cbuf (st w)) (st w) [] (length (@nil N))).
+  { unfold WInv, vals_ok, frame_ok, cmd_of. rewrite Hg.
+    repeat split; try assumption; try reflexivity.
+    intros v' d0 []. }
+  unfold Lemmas_C07e.write_back. rewrite Hvs.
+  destruct (wloop c m (mem (st w)) (cbuf (st w)) Hw ltac:(rewrite Hvs; exact Hnd) H2
+                  vs v [] w [] txts tl Hvs Hok HW Hall Hbuf) as (s' & E & HD).
+  rewrite E. cbn [Fsm.st Fsm.tr Fsm.hs Fsm.set_st].
+  destruct HD as (D1 & D2 & D3 & D4 & D5 & D6). rewrite Hvs in D5, D6.
+  repeat split; assumption.
+Qed.
+
+Theorem C07_end_to_end : forall (w w2 : world) ci c args,
+  g_cmd ATCMD (st w) = Some ci -> cmd_at D ci = Some c -> rt_cmd_ok (mem (st w)) c ->
+  fault (st w) = false -> read_args_text (mem (st w)) c = Some args ->
+  length (c_name c ++ [ch_EQ] ++ args) < length (cbuf (st w)) ->
+  let w1 := read_response c w in
+  let echoed := skipn (S (length (c_name c))) (text_of (cbuf (st w1))) in
+  echoed = args /\ length echoed < length (cbuf (st w)) /\
+  (same_shape (mem (st w)) (mem (st w2)) ->
+   k_state (k (st w2)) = CS_PARSE_WRITE_ARGS -> g_cmd ATCMD (st w2) = Some ci ->
+   k_position (k (st w2)) = 0 -> k_index (k (st w2)) = 0 -> k_var (k (st w2)) = 0 ->
+   firstn (S (length echoed)) (cbuf (st w2)) = echoed ++ [0%N] -> fault (st w2) = false ->
+   let w3 := write_back c w2 in
+   fault (st w3) = false /\ tr w3 = tr w2 /\ hs w3 = hs w2 /\
+   k_state (k (st w3)) = CS_FLUSH_WAIT /\ k_wafter (k (st w3)) = CS_AFTER_RESET /\
+   text_of (cbuf (st w3)) = txt_OK /\
+   (forall v d0, In v (c_vars c) -> nth_error (mem (st w)) (v_slot v) = Some d0 ->
+      exists d1, nth_error (mem (st w3)) (v_slot v) = Some d1 /\ same_value v d1 d0) /\
+   (forall sl, ~ In sl (map v_slot (c_vars c)) ->
+      nth_error (mem (st w3)) sl = nth_error (mem (st w2)) sl)).
+Proof.
+  intros w w2 ci c args Hg Hc Hok Hf Ha Hfit w1 echoed.
+  pose proof (C07_read_response w ci c args Hg Hc Hok Hf Ha) as HR. cbv zeta in HR.
+  fold w1 in HR. destruct HR as (_ & _ & _ & _ & _ & HR).
+  replace (length (c_name c ++ [ch_EQ] ++ args) <? length (cbuf (st w))) with true in HR
+    by (symmetry; apply Nat.ltb_lt; exact Hfit).
+  destruct HR as (Htxt & _).
+  assert (He : echoed = args).
+  { subst echoed. rewrite Htxt.
+    replace (c_name c ++ [ch_EQ] ++ args) with ((c_name c ++ [ch_EQ]) ++ args)
+      by (rewrite <- app_assoc; reflexivity).
+    replace (S (length (c_name c))) with (length (c_name c ++ [ch_EQ]))
+      by (rewrite app_length; cbn [length]; lia).
+    apply skipn_app_len. }
+  split; [exact He|]. split.
+  { rewrite He. rewrite !app_length in Hfit. cbn [length] in Hfit. lia. }
+  rewrite He. intros Hsh Hst2 Hg2 Hp Hi Hv Hbuf Hf2.
+  exact (C07_write_back w2 ci c (mem (st w)) args Hok Ha Hsh Hst2 Hg2 Hc Hp Hi Hv Hbuf Hf2).
+Qed.
+
+End C07e.
